@@ -40,7 +40,10 @@ def _self_name(fn):
 def check(ctx):
     repo = ctx.repo
     from . import generic as _gen
-    _gen.language_traps(ctx, _gen.anchor_functions(repo, "C01"), "the property holds for every input, on every call")
+    # util.sequencify / util.length / util.is_scalar decide what is broadcast: the helpers module belongs to the anchor
+    _gen.language_traps(ctx, _gen.anchor_functions(repo, "C01") + [f for f in _gen.module_functions(repo, "dataiter.util")
+                                                                      if f not in _gen.anchor_functions(repo, "C01")],
+                        "the property holds for every input, on every call")
     I = interp(repo)
     for r, t in (("MPT-1", "constructor: every normal exit passes the uniformity check"),
                  ("STO-1", "constructor stores only DataFrameColumn(value, nrow=nrow); skip only for conforming columns"),
@@ -176,10 +179,30 @@ def check(ctx):
     ctx.count("broadcast sites in DataFrameColumn.__new__", len(reps), 1)
     for c in reps:
         facts = facts_at(new, c)
-        ok1 = any((k == "F" and t.endswith(".length != 1")) or (k == "T" and t.endswith(".length == 1")) for k, t in facts)
+        # exact: on the grid (length, nrow) in 0..4 x 0..4, every point consistent with all facts that hold at the call
+        # (tests the evaluator cannot read are taken as possibly true) has length 1
+        from ..intpred import _ev, Unsupported
+        recv = norm(c.func.value)
+        witness = None
+        for L_ in range(5):
+            for N_ in range(5):
+                env = {f"{recv}.length": L_, f"len({recv})": L_, "nrow": N_, "nrow is not None": True, "nrow is None": False}
+                consistent = True
+                for k, t in facts:
+                    try:
+                        v = _ev(ast.parse(t, mode="eval").body, env)
+                    except (Unsupported, SyntaxError, TypeError):
+                        continue
+                    if bool(v) != (k == "T"):
+                        consistent = False
+                        break
+                if consistent and L_ != 1 and witness is None:
+                    witness = (L_, N_)
+        ok1 = witness is None
         ctx.ob("GRD-len", new, norm(c), c, ok1,
                "only length-1 input is repeated" if ok1 else
-               "input of any length is repeated to nrow: a length mismatch is stored instead of being rejected",
+               f"input whose length is not 1 reaches the repeat (e.g. length {witness[0]} with nrow = {witness[1]} passes every test on the "
+               f"way): a length mismatch is stored -- repeated or emptied -- instead of being rejected",
                chain=[f"facts: {sorted(facts)}"], clause="any other length mismatch is rejected with an error")
         ok2 = norm(c.args[0]) == "nrow" if c.args else False
         ctx.ob("GRD-len", new, "repeat count is nrow", c, ok2, "repeated to exactly nrow" if ok2 else "repeat count is not nrow",
@@ -261,10 +284,24 @@ def check(ctx):
                    clause="all columns have the same length")
         else:
             ok = isinstance(v, ast.Call) and repo.dotted(rec, v.func) == DFC and kw(v, "nrow") is not None
+            if not ok:
+                # an EMPTY slice of a DataFrameColumn (X[:0], X[:0].copy()) where the frame is known to have zero rows:
+                # a column of exactly nrow = 0 elements, of X's own type
+                core = v.func.value if isinstance(v, ast.Call) and isinstance(v.func, ast.Attribute) and v.func.attr == "copy" and not v.args else v
+                if isinstance(core, ast.Subscript) and isinstance(core.slice, ast.Slice) and core.slice.lower is None and core.slice.step is None \
+                        and isinstance(core.slice.upper, ast.Constant) and core.slice.upper.value == 0 and isinstance(core.value, ast.Name):
+                    ft_ = {t for k, t in facts_at(rec, r) if k == "T"}
+                    zero = any(t in ("nrow == 0", f"{_self_name(rec)}.nrow == 0", "not nrow") for t in ft_)
+                    ds_ = [d.value for d in defs_reaching(rec, core.value.id, r)]
+                    isdfc = bool(ds_) and all(d is not None and isinstance(d, ast.Call) and repo.dotted(rec, d.func) == DFC for d in ds_)
+                    if zero and isdfc:
+                        nd_ = defs_reaching(rec, "nrow", r)
+                        ok = all(d.value is not None and norm(d.value) in (f"{_self_name(rec)}.nrow if {_self_name(rec)} else None", f"{_self_name(rec)}.nrow")
+                                 for d in nd_) if "nrow == 0" in ft_ or "not nrow" in ft_ else True
             ctx.ob("STO-2", rec, norm(v) if v is not None else "return", r, ok,
                    "otherwise the value is converted and broadcast/rejected by DataFrameColumn(column, nrow=...)" if ok else
                    "fallback does not build DataFrameColumn(column, nrow=...)", clause="broadcast to the row count")
-            if ok:
+            if ok and isinstance(v, ast.Call) and kw(v, "nrow") is not None:
                 nv = kw(v, "nrow")
                 vals = [nv]
                 if isinstance(nv, ast.Name):
